@@ -12,7 +12,7 @@ from mc import docs, framing
 from mc.kernel import Tally, case_alarm, fan_out, observed_warnings
 from mc.observe import compare_items, exc_names, items_of
 from mc.ref.interp import decode_packet
-from mc.spec import (BinEnc, Dyn, Fixed, FloatEnc, IntEnc, Param, Poly, PType, StrEnc, build_objects, load_doc)
+from mc.spec import (BinEnc, Cmp, Dyn, Fixed, FloatEnc, IntEnc, Lookup, Param, Poly, PType, StrEnc, build_objects, load_doc)
 
 PROP = "C14"
 LEVEL = "exploration"
@@ -64,6 +64,12 @@ def layouts(tier="quick"):
                                 ("F", PType("F32_T", "Float", FloatEnc(32)))], prefix=lambda ln: format(ln, "08b"), uses_len=True)
     add("LENC(cal 8x),BLOB(LENC)", [("LENC", PType("LENC_T", "Integer", IntEnc(8, default_cal=Poly(((8.0, 1),))))),
                                     ("BLOB", PType("BLC_T", "Binary", BinEnc(Dyn("LENC", True))))],
+        prefix=lambda ln: format(ln, "08b"), uses_len=True)
+    add("LEN,STR(lookup: LEN==1 -> 0 bits, else 16),u8", [("LEN", U(8)), ("STR", PType("SLZ_T", "String", StrEnc(
+        Lookup((((Cmp("LEN", "==", "1"),), 0.0), ((Cmp("LEN", ">=", "0"),), 16.0))), "US-ASCII"))), ("Z", U(8))],
+        prefix=lambda ln: format(ln, "08b"), uses_len=True)
+    add("LEN,BIN(lookup: LEN==1 -> 0 bits, else 12),u4", [("LEN", U(8)), ("BIN", PType("BLZ_T", "Binary", BinEnc(
+        Lookup((((Cmp("LEN", "==", "1"),), 0.0), ((Cmp("LEN", ">=", "0"),), 12.0)))))), ("N", U(4))],
         prefix=lambda ln: format(ln, "08b"), uses_len=True)
     add("LEN,BITS(LEN bits),u3", [("LEN", U(8)), ("BITS", PType("BB_T", "Binary", BinEnc(Dyn("LEN", False)))), ("P3", U(3))],
         prefix=lambda ln: format(ln, "08b"), uses_len=True)
